@@ -20,7 +20,7 @@ Record qid := { q_type : N; q_vers : N; q_path : N }.
 
 (* flat field values (everything a Dir may contain) *)
 Inductive fval :=
-| FInt (n : N)
+| FInt (w n : N)     (* unsigned integer of w bytes (w in {1,2,4,8}) with value n *)
 | FStr (s : list N)
 | FData (d : list N)
 | FStrs (l : list (list N))
@@ -33,6 +33,13 @@ Inductive val :=
 | VDir (fs : list fval).   (* the Dir's exported fields in struct order *)
 
 Record fcall := { fc_type : N; fc_tag : N; fc_fields : list val }.
+
+Definition kind_of_fval (f : fval) : kind :=
+  match f with
+  | FInt w _ => KInt w | FStr _ => KStr | FData _ => KData | FStrs _ => KStrs
+  | FQid _ => KQid | FQids _ => KQids | FTime _ => KTime
+  end.
+Definition kind_of (v : val) : kind := match v with VF f => kind_of_fval f | VDir _ => KDir end.
 
 Definition kind_eqb (a b : kind) : bool :=
   match a, b with
